@@ -132,9 +132,9 @@ def plan(pid: str, tier: str, seed: int) -> dict:
     if pid == "C01":
         progs = core + [PR.by_name(n) for n in (("before1", "after1", "siblingfail") if quick else SYN)] + ([] if quick else extra) \
             + [p for p in PR.lazy_family() if not quick or p["name"] in ("lazychain", "lazyfail")] \
-            + ([] if quick else PR.split_family())
+            + ([] if quick else PR.split_family()) + PR.mi_family()
         return dict(
-            progs=progs, props=["C01_SameOutcome", "C01_ExecBound", "C01_NothingStranded", "C01_SameData"],
+            progs=progs, props=["C01_SameOutcome", "C01_ExecBound", "C01_NothingStranded", "C01_SameData", "C01_InstanceNotLost"],
             jobs=lambda refs: [
                 {"kind": "crash", "prog": p, "points": pts, "sweeps": 1}
                 for p in progs for pts in chunks(range(1, refs[p["name"]]["commits"] + 1), 24)
@@ -152,13 +152,14 @@ def plan(pid: str, tier: str, seed: int) -> dict:
             ]),
             mc=[(n, {"MaxCrashes": 1, "AnyOrder": "FALSE"}, {}) for n in ("chain2", "diamond", "selfloop", "poll")]
                + [(n, {"MaxCrashes": 1, "AnyOrder": "TRUE"}, {}) for n in ("chain2", "termchain")]
-               + [("lazychain", {"MaxCrashes": 1, "AnyOrder": "FALSE"}, {}), ("lazy1", {"MaxCrashes": 2, "AnyOrder": "TRUE"}, {})]
+               + [("lazychain", {"MaxCrashes": 1, "AnyOrder": "FALSE"}, {}), ("lazy1", {"MaxCrashes": 2, "AnyOrder": "TRUE"}, {}),
+                  ("midyn", {"MaxCrashes": 1, "AnyOrder": "FALSE", "MaxAdds": 1}, {})]
                + ([] if quick else [(n, {"MaxCrashes": 2, "AnyOrder": "FALSE", "MaxSweeps": 1}, {}) for n in
                                     ("chain2", "diamond", "failbranch", "firstof", "cycle2")]),
         )
     if pid == "C02":
         progs = core + extra + [PR.by_name(n) for n in SYN] + PR.split_family() + PR.lazy_family() + PR.halt_family() \
-            + PR.milestone_family()
+            + PR.milestone_family() + PR.mi_family()
         nseed = 24 if quick else 400
         return dict(
             progs=progs, props=["C02_SameOutcome", "C02_StartOnce", "C02_NoReexec", "C02_ExecExact", "C01_SameData"],
@@ -166,6 +167,9 @@ def plan(pid: str, tier: str, seed: int) -> dict:
                                for p in progs for s in chunks(range(seed * 1000, seed * 1000 + nseed), 12)]
                               # one message type of one stage overtaken by everything else (a whole branch finishing, down to its
                               # CompleteWorkflow, before a sibling's StartStage arrives, a CompleteTask before its JumpToStage, ...)
+                              + [{"kind": "inject", "prog": p, "what": "add:w", "at": at, "times": t}     # WCP-15: instances added at any step
+                                 for p in progs if p["name"] == "midyn" for t in (1, 2)
+                                 for at in chunks(range(1, refs[p["name"]]["steps"] + 2), 12)]
                               + straggler_jobs(progs, seed, ("StartStage", "CompleteStage", "CompleteWorkflow") if quick else
                                                ("StartStage", "StartTask", "RunTask", "CompleteTask", "CompleteStage", "JumpToStage",
                                                 "SkipStage", "ContinueParentStage", "CompleteWorkflow")),
